@@ -299,6 +299,79 @@ func runForeign(it *ForeignItem, ks *sut.KeySet, workRoot string) (res ForeignRe
 	want["/zz-added-dir/new.txt"] = added
 	kinds["/zz-added-dir"] = "dir"
 	kinds["/zz-added-dir/new.txt"] = "file"
+	// arbitrary further calls on ORIGINAL members: chmod one, rename one (with its subtree), remove one
+	{
+		var files, tops []string
+		for p, k := range kinds {
+			if strings.HasPrefix(p, "/zz-added") || p == "/" {
+				continue
+			}
+			if k == "file" {
+				files = append(files, p)
+			}
+			if strings.Count(p, "/") == 1 {
+				tops = append(tops, p)
+			}
+		}
+		sort.Strings(files)
+		sort.Strings(tops)
+		var merr error
+		var did []string
+		ok, pan := sut.Watchdog(callTimeout, func() {
+			if len(files) > 0 {
+				if merr = fsys.Chmod(files[0], 0o600); merr != nil {
+					merr = fmt.Errorf("Chmod(%s): %w", files[0], merr)
+					return
+				}
+				did = append(did, "chmod "+files[0])
+			}
+			if len(tops) > 0 {
+				from, to := tops[0], tops[0]+"-renamed"
+				if merr = fsys.Rename(from, to); merr != nil {
+					merr = fmt.Errorf("Rename(%s): %w", from, merr)
+					return
+				}
+				did = append(did, "rename "+from)
+				for p, k := range kinds {
+					if p == from || strings.HasPrefix(p, from+"/") {
+						np := to + strings.TrimPrefix(p, from)
+						kinds[np] = k
+						if k == "file" {
+							want[np] = want[p]
+							delete(want, p)
+						}
+						delete(kinds, p)
+					}
+				}
+			}
+			// remove a file that still exists
+			var victim string
+			for p, k := range kinds {
+				if k == "file" && !strings.HasPrefix(p, "/zz-added") && (victim == "" || p < victim) {
+					victim = p
+				}
+			}
+			if victim != "" {
+				if merr = fsys.Remove(victim); merr != nil {
+					merr = fmt.Errorf("Remove(%s): %w", victim, merr)
+					return
+				}
+				did = append(did, "remove "+victim)
+				delete(kinds, victim)
+				delete(want, victim)
+			}
+		})
+		res.Checks++
+		if !ok || pan != nil {
+			add("coexist", "further calls on original members did not return / panicked: %v", pan)
+			res.Hang = !ok
+			return
+		}
+		if merr != nil {
+			add("coexist", "a further call on an original member failed: %v (done before: %v)", merr, did)
+			return
+		}
+	}
 	check := func(fs2 afero.Fs, how string) {
 		v, err := sut.Walk(fs2, sut.ViewOpts{ReadContent: true, KeepData: true})
 		if err != nil {
